@@ -9,6 +9,7 @@ OID with the right PDU type / max-repetitions, every yield is the next pair of t
 and at the end yielded = Subtree(MIB, base).  Walk.tla (TLC) is the design-level model of the iterator."""
 import json, asyncio
 from vlib import env, tlc, trace, corpus, scripts, apidrv, walks, agent as ag, sesscheck
+from vlib import refcodec as rc
 from vlib.report import Check, confirm_by_replay, timing_event
 from vlib.env import ToolError, SEED
 
@@ -60,6 +61,57 @@ def multi_mib():
     rows_b = [1, 2, 3, 200, 201, 202, 300, 301, 400]
     names = [[1, 3, 6, 1, 4, 1, 9999, 7, 1, i] for i in rows_a] + [[1, 3, 6, 1, 4, 1, 9999, 7, 2, i] for i in rows_b] + [[1, 3, 6, 1, 4, 1, 9999, 8, 1]]
     return [list(rc.oid_content(n)) for n in names]
+
+
+def long_name_runs(rec, thorough):
+    """honest agent over a MIB whose names are long: many arcs, large arcs, and both (127 .. 636 content octets; a name has up to
+    128 arcs of up to 2^32-1) - in the walked subtree and right after it"""
+    std = scripts.std_cfgs()
+    pre = [1, 3, 6, 1, 4, 1, 9999, 7, 3]
+    rows = [pre + [1] + [1] * 110,                       # 128 arcs, all small: 127 octets
+            pre + [1] + [300] * 60 + [1],                # 71 arcs: ~130 octets
+            pre + [1] + [300] * 60 + [2],
+            pre + [2] + [4294967295] * 25 + [7],         # 35 arcs: ~135 octets
+            pre + [2] + [4294967295] * 25 + [8, 1],
+            pre + [3] + [4294967295] * 118,              # 128 arcs of 2^32-1: 598 octets
+            [1, 3, 6, 1, 4, 1, 9999, 7, 4] + [16384] * 50]   # after the subtree
+    mib = [list(rc.oid_content(n)) for n in rows]
+    base = ".".join(str(x) for x in pre)
+    runs = []
+    specs = [("getnext", None, False), ("getbulk", 2, False), ("getbulk", 20, True), ("getbulk", 50, False)]
+
+    async def one_async(cfg, spec):
+        a = rec.n
+        holder = {}
+        api = await apidrv.AsyncApi.create(rec, cfg, lambda req: holder["r"](req), timeout=1.0)
+        agent = ag.Agent(engine=cfg.engine or None) if cfg.engine else ag.Agent()
+        holder["r"] = walks.honest_responder(agent, api.cfgref, mib, 3)
+        op, m, fetch = spec
+        real_op = "getnext" if cfg.ver == "v1" else op
+        await walks.walk_async(api, real_op, base, (20 if fetch else m) if real_op == "getbulk" else None, honest=True, mib=mib, fetch=fetch)
+        api.close()
+        return a, rec.n
+    for client in ("sync", "async"):
+        for cn in (("v2c", "v3-md5") if not thorough else ("v2c", "v1", "v3-md5", "v3-sha1-aes")):
+            cfg = std[cn]
+            for spec in specs:
+                if cfg.ver == "v1" and spec[0] == "getbulk" and not spec[2]:
+                    continue
+                if client == "async":
+                    a, b = asyncio.run(one_async(cfg, spec))
+                else:
+                    a = rec.n
+                    holder = {}
+                    api = apidrv.SyncApi(rec, cfg, lambda req: holder["r"](req), timeout=1.0)
+                    agent = ag.Agent(engine=cfg.engine or None) if cfg.engine else ag.Agent()
+                    holder["r"] = walks.honest_responder(agent, api.cfgref, mib, 3)
+                    op, m, fetch = spec
+                    real_op = "getnext" if cfg.ver == "v1" else op
+                    walks.walk_sync(api, real_op, base, (20 if fetch else m) if real_op == "getbulk" else None, honest=True, mib=mib, fetch=fetch)
+                    api.close()
+                    b = rec.n
+                runs.append((a, b, dict(kind=client, ver=cfg.ver, lossy=dict(cfg=cn, spec=list(spec), drop_at=0, long_names=True))))
+    return runs
 
 
 def lossy_runs(rec, thorough):
@@ -242,6 +294,7 @@ def run(tier):
     # several walks alive in one process: abandoned / nested / interleaved, on one session or two (each walk its own trace session)
     runs += multi_runs(rec, thorough)
     runs += lossy_runs(rec, thorough)
+    runs += long_name_runs(rec, thorough)
     rec.close()
     nwalks = sum(1 for e in rec.events if e["ev"] == "WalkStart")
     print("  %d sessions, %d walks, %d events" % (len(runs), nwalks, rec.n), flush=True)
@@ -270,7 +323,7 @@ def run(tier):
         if "lossy" in info:
             lo = info["lossy"]
             sig["lossy"] = True
-            chk.violation(sig, "%s %s %s%s, request #%d of the walk never answered: %s %s" % (info["kind"], lo["cfg"], "fetch" if lo["spec"][2] else lo["spec"][0],
+            chk.violation(sig, ("%s %s %s%s over a MIB of long names (drop %d): %s %s" if lo.get("long_names") else "%s %s %s%s, request #%d of the walk never answered: %s %s") % (info["kind"], lo["cfg"], "fetch" if lo["spec"][2] else lo["spec"][0],
                           "" if lo["spec"][1] is None else "(%d)" % lo["spec"][1], lo["drop_at"], ev["ev"], ev.get("exc") or json.dumps(ev.get("res"))[:100]),
                           dict(info=info, events=rec.events[a:idxf + 1][-12:]))
             continue
@@ -295,7 +348,9 @@ def replay(path):
     std = scripts.std_cfgs()
     cfgname = {"v1": "v1", "v2c": "v2c"}.get(info["ver"], "v3-md5-aes")
     rec = trace.Recorder("c05-replay")
-    if "lossy" in info:
+    if "lossy" in info and info["lossy"].get("long_names"):
+        long_name_runs(rec, False)
+    elif "lossy" in info:
         lossy_runs(rec, False)
     elif "multi" in info:
         if info["kind"] == "async":
